@@ -237,10 +237,10 @@ func checkC13(c *core.Ctx) {
 
 /* ---------------- C15 ---------------- */
 
-var c15Values = []float64{-700, -20, -1, 0, 1e-9, 1, 20, 700, 0, -0.5}
+var c15Values = []float64{-700, -20, -1, 0, 1e-9, 1, 20, 700, 1e-300, -1e-250, 5e-324, -1e-9, 0, -0.5}
 
 func c15Acts(rank int) []ref.Op {
-	out := []ref.Op{{K: "Relu"}, {K: "LeakyRelu", F: 0.01}, {K: "LeakyRelu", F: 0.3}, {K: "LeakyRelu", F: -0.5}, {K: "LeakyRelu", F: 1.5}, {K: "LeakyRelu", F: 1}, {K: "Sigmoid"}, {K: "TanhAct"}}
+	out := []ref.Op{{K: "Relu"}, {K: "LeakyRelu", F: 0.01}, {K: "LeakyRelu", F: 0.3}, {K: "LeakyRelu", F: -0.5}, {K: "LeakyRelu", F: 1.5}, {K: "LeakyRelu", F: 1}, {K: "LeakyRelu", F: 0}, {K: "Sigmoid"}, {K: "TanhAct"}}
 	for d := 0; d < rank; d++ {
 		out = append(out, ref.Op{K: "Softmax", Dim: d})
 	}
